@@ -41,6 +41,8 @@ func c13Alphabet() []c13Shape {
 		{"trailer-badmd", kit.EnvSpec{Status: okst, Trailer: true, TrlMD: badMD}},
 		{"reset", kit.EnvSpec{Reset: "RST_STREAM", Trailer: true}},
 		{"reset+status", kit.EnvSpec{Reset: "RST_STREAM", Status: errst, Trailer: true}},
+		{"reset+ok-status", kit.EnvSpec{Reset: "RST_STREAM", Status: okst, Trailer: true}},
+		{"reset+ok-status-no-trailer", kit.EnvSpec{Reset: "RST_STREAM", Status: okst}},
 		{"empty", kit.EnvSpec{Empty: true}},
 		{"request-shaped", kit.EnvSpec{Src: sp("c0"), Dst: sp(kit.ServerName), Body: body, Wrap: true}},
 		{"body+trailer", kit.EnvSpec{Body: body, Wrap: true, Status: okst, Trailer: true}},
